@@ -93,6 +93,10 @@ func scanMonitor(out string, size int) string {
 	}
 	if strings.HasPrefix(end, "err:") {
 		p := strings.Split(end, ":")
+		if len(p) == 3 && strings.Contains(string(unhexMust(p[1])), "does not match beginning event") {
+			// the scanner's own consistency error surfaced to the user (Props/C12 proves it cannot)
+			return "scanner ended a lexeme of another kind than the one it began (internal error surfaced)"
+		}
 		idx, _ := strconv.ParseInt(p[len(p)-1], 10, 64)
 		if idx < 0 || idx > int64(size) {
 			return fmt.Sprintf("error index %d outside the file (size %d)", idx, size)
